@@ -812,11 +812,12 @@ def run(tier="quick", seed=0):
     scfgs = scroll_configs(tier)
     for i, cfg in enumerate(scfgs):
         evs = alphabet(tier, cfg["bar"])
-        nrand = 0 if quick else 150
+        nrand = 0 if quick else 100
         rand = [tuple(r.choice(evs) for _ in range(r.randint(4, 6))) for _ in range(nrand)]
-        # thorough: length 3 exhaustively on the quick alphabet is too large for every config; the full
-        # -9..9 alphabet is used at length <= 2 and seeded random histories of length 4..6 on top
-        jobs.append(("scroll", i, cfg, tier, {"maxlen": 2, "modes": i % (8 if quick else 2) == 0, "random": rand}))
+        # length 3 exhaustively over the whole alphabet is too large for every config: the whole alphabet is
+        # used at length <= 2, a core alphabet at length 3 on a few configs (scroll3 jobs), and in the
+        # thorough tier seeded random histories of length 4..6 on top
+        jobs.append(("scroll", i, cfg, tier, {"maxlen": 2, "modes": i % (8 if quick else 4) == 0, "random": rand}))
     c3 = len3_configs(tier)
     for i, cfg in enumerate(c3):
         jobs.append(("scroll3", 100000 + i, cfg, tier, {}))
@@ -837,11 +838,11 @@ def run(tier="quick", seed=0):
     nalpha = len(alphabet(tier, None))
     bound = (
         f"{len(scfgs)} Scrollable configs (contents: Text/Pile(mixed, empty)/fixed block/key-grabbing flow widget, <= 9 rows; "
-        f"views {QUICK_SIZES if quick else '{3,4,6}x{1,2,3,6}'}; no bar / bar width 1-2 left/right; force_forward_keypress both) x all histories "
+        f"views {QUICK_SIZES if quick else '{3,4,6}x{1,2,3,6}'}; no bar / bar width 1-2 left/right; force_forward_keypress both{'' if quick else '; focus=False renders'}) x all histories "
         f"of length <= 2 over {nalpha} events (6 keys, wheel up/down, 2 clicks, set_scrollpos {'{-9,-2,-1,0,1,3,9}' if quick else '-9..9'}, 5 resizes, 2 content changes), "
-        f"render after every event (+ render-at-end and no-initial-render variants on every {8 if quick else 2}th config); "
+        f"render after every event (+ render-at-end and no-initial-render variants on every {8 if quick else 4}th config); "
         f"all length-3 histories over {len(ALPHA3['quick' if quick else 'thorough'])} core events on {len(c3)} configs; "
-        f"{'' if quick else '150 seeded random histories of length 4-6 per config; '}"
+        f"{'' if quick else '100 seeded random histories of length 4-6 per config; '}"
         f"{len(lcfgs)} ListBox-under-ScrollBar configs (<= {8 if quick else 12} items of 1-2 rows) x histories of length <= 2 over {len(LB_EVENTS)} events"
         f"{'' if quick else ' + 100 random histories of length 3-5'}; view width > bar width"
     )
